@@ -13,9 +13,12 @@ package props
 
 import (
 	"bytes"
+	"crypto/sha256"
+	"encoding/binary"
 	"fmt"
 	"math"
 	"math/rand/v2"
+	"strings"
 
 	"seehuhn.de/go/geom/matrix"
 	"seehuhn.de/go/postscript/funit"
@@ -159,7 +162,7 @@ func checkWrittenFont(c *rt.C, f *type1.Font, stdEnc []string, format type1.File
 		}
 		// (3) the path in absolute coordinates
 		if msg := comparePath(g.Cmds, mg.Cmds, allInt); msg != "" {
-			c.Violation("path|independent-decoder", fmt.Sprintf("glyph %q (%s): %s", name, fmtName, msg), fmt.Sprintf("charstring: % x", head2(mg.Raw, 600)))
+			c.Violation(pathFingerprint("path|independent-decoder", msg), fmt.Sprintf("glyph %q (%s): %s", name, fmtName, msg), fmt.Sprintf("charstring: % x", head2(mg.Raw, 600)))
 		}
 		// (4) the library's own reader, same bound
 		if lerr == nil {
@@ -169,7 +172,7 @@ func checkWrittenFont(c *rt.C, f *type1.Font, stdEnc []string, format type1.File
 					cmds = append(cmds, ref.MCmd{Op: "?MLCZ"[cmd.Op], Args: cmd.Args})
 				}
 				if msg := comparePath(g.Cmds, cmds, allInt); msg != "" {
-					c.Violation("path|type1.Read", fmt.Sprintf("glyph %q (%s) read back by type1.Read: %s", name, fmtName, msg), "")
+					c.Violation(pathFingerprint("path|type1.Read", msg), fmt.Sprintf("glyph %q (%s) read back by type1.Read: %s", name, fmtName, msg), "")
 				}
 			}
 		}
@@ -204,6 +207,17 @@ func stemsMatch(want []funit.Int16, got []float64) bool {
 	return true
 }
 
+// nearBoundMark prefixes comparePath's message for the one class of excess
+// that is listed as a known finding.
+const nearBoundMark = "[end point forced equal, excess below 1e-6] "
+
+func pathFingerprint(base, msg string) string {
+	if strings.HasPrefix(msg, nearBoundMark) {
+		return base + "|curve-end-forced-equal-within-1e-6"
+	}
+	return base
+}
+
 func comparePath(want []type1.GlyphOp, got []ref.MCmd, exact bool) string {
 	if len(want) != len(got) {
 		return fmt.Sprintf("%d path commands decoded, %d requested", len(got), len(want))
@@ -222,7 +236,14 @@ func comparePath(want []type1.GlyphOp, got []ref.MCmd, exact bool) string {
 			// segments this is below 1e-5, far below 1/214.
 			fl := math.Max(math.Abs(w.Args[j]), 1) * 2.3e-16 * float64(6*(i+1))
 			if (exact && d != 0) || d > bound214+fl {
-				return fmt.Sprintf("command %d (%v): decoded %v, off by %.6g in coordinate %d (bound: %s)", i, w.Op, g.Args, d, j, map[bool]string{true: "exact", false: "1/214"}[exact])
+				msg := fmt.Sprintf("command %d (%v): decoded %v, off by %.6g in coordinate %d (bound: %s)", i, w.Op, g.Args, d, j, map[bool]string{true: "exact", false: "1/214"}[exact])
+				if !exact && d <= bound214+fl+1e-6 && w.Op == type1.OpCurveTo && j >= 4 && math.Abs(w.Args[j]-w.Args[j-2]) < 1e-6 {
+					// the end point of a curve whose requested coordinate lies within the
+					// encoder's 1e-6 equality tolerance of the second control point's: the
+					// h/v curve forms then do not write it (known-findings.json)
+					return nearBoundMark + msg + " - the requested end point lies within 1e-6 of the second control point in this coordinate, the curve form written makes them equal"
+				}
+				return msg
 			}
 		}
 	}
@@ -414,8 +435,25 @@ func runC20(r *rt.Runner) {
 	nNear := r.N(48, 400)
 	for k := 0; k < nNear; k++ {
 		r.Case("long-path/near-integer", func(c *rt.C) {
-			rng := c.Rand()
-			nseg := 5200 + rng.IntN(r.N(2000, 4800))
+			nearIntegerPath(c, c.Rand(), r.N(2000, 4800), stdEnc)
+		})
+	}
+	// the path of this family that first showed the known finding (thorough
+	// tier, seed 2, case 44427), rebuilt from that case's generator state so that
+	// the finding is reported by every run
+	r.Case("long-path/near-integer-pinned", func(c *rt.C) {
+		h := sha256.Sum256([]byte("C20|2|44427"))
+		rng := rand.New(rand.NewPCG(binary.LittleEndian.Uint64(h[:8]), binary.LittleEndian.Uint64(h[8:16])))
+		nearIntegerPath(c, rng, 4800, stdEnc)
+	})
+}
+
+// nearIntegerPath is one case of the near-integer long-path family.
+func nearIntegerPath(c *rt.C, rng *rand.Rand, spread int, stdEnc []string) {
+	r := c.Runner()
+	{
+		{
+			nseg := 5200 + rng.IntN(spread)
 			off := []float64{9.5e-7, 9.9e-7, 9.99e-7, 7e-7, 1.2e-6, 4e-7}[rng.IntN(6)]
 			if rng.IntN(2) == 0 {
 				off = -off
@@ -447,8 +485,9 @@ func runC20(r *rt.Runner) {
 			c.Nontrivial([]byte(fmt.Sprintf("nearpath|%d|%v|%v|%v", nseg, off, offY, x)), func() string {
 				return fmt.Sprintf("%d segments, steps integer%+g", nseg, off)
 			})
-		})
+		}
 	}
+	_ = r
 }
 
 // farStart moves the start of a path far away from the origin (all coordinates
